@@ -1,5 +1,6 @@
 mod c01;
 mod c04;
+mod c09;
 mod cjs;
 mod cpair;
 mod csem;
@@ -25,6 +26,7 @@ fn check_by_id(id: &str) -> Option<Arc<dyn Check>> {
         "C06" => Arc::new(csem::C06),
         "C07" => Arc::new(csem::C07),
         "C08" => Arc::new(cpair::C08),
+        "C09" => Arc::new(c09::C09),
         "C11" => Arc::new(cjs::C11),
         "C13" => Arc::new(cpair::C13),
         "C15" => Arc::new(cpair::C15),
